@@ -1,12 +1,15 @@
 package crash
 
 import (
+	"bytes"
 	"context"
 	"fmt"
+	"strings"
 	"time"
 
 	"github.com/glebziz/fs_db/verifh/conc"
 	"github.com/glebziz/fs_db/verifh/dbh"
+	"github.com/glebziz/fs_db/verifh/model"
 	"github.com/glebziz/fs_db/verifrt/badger"
 	"github.com/glebziz/fs_db/verifrt/sync"
 	"github.com/glebziz/fs_db/verifrt/vrt"
@@ -23,8 +26,15 @@ import (
 // Write calls, Close: the asynchronous pipeline)
 func init() {
 	conc.Register("crash-conc", func(p string) *conc.Scenario {
-		op := "S"
-		fmt.Sscanf(p, "op=%s", &op)
+		op, vs := "S", "X"
+		for _, kv := range strings.Split(p, ",") {
+			switch {
+			case strings.HasPrefix(kv, "op="):
+				op = kv[3:]
+			case strings.HasPrefix(kv, "vs="):
+				vs = kv[3:] // the other thread: "X" a collection pass (default), "S" an autocommit Set of the same key
+			}
+		}
 		return &conc.Scenario{
 			Options: func(o *vrt.Options) { o.LongTimer = dbh.GCPeriod / 2 },
 			Body: func() (string, string) {
@@ -39,7 +49,8 @@ func init() {
 					return "infra: open: " + err.Error(), ""
 				}
 				ctx := context.Background()
-				lens := map[int]int{1: 8, 2: 8}
+				lens := map[int]int{1: 8, 2: 8, 3: 8}
+				ack3 := -1
 				if err := in.DB.Set(ctx, "a", dbh.Content(1, 8)); err != nil {
 					in.Close()
 					return "setup Set failed: " + dbh.ShortErr(err), ""
@@ -85,11 +96,32 @@ func init() {
 				})
 				vrt.GoNamed("collector", func() {
 					defer wg.Done()
+					if vs == "S" {
+						if err := in.DB.Set(ctx, "a", dbh.Content(3, 8)); err != nil && werr == nil {
+							werr = err
+						}
+						ack3 = len(rec.Log)
+						return
+					}
 					vrt.Advance(dbh.GCPeriod)
 				})
 				wg.Wait()
-				vrt.Quiesce()
 				vrt.SetBranching(false)
+				// what the clients are told the key holds once both calls have returned
+				finalVal := -2
+				ackBoth := len(rec.Log)
+				if vs == "S" {
+					if b, err := in.DB.Get(ctx, "a"); err == nil {
+						for id := 1; id <= 3; id++ {
+							if bytes.Equal(b, dbh.Content(id, 8)) {
+								finalVal = id
+							}
+						}
+					} else if dbh.Class(err) == model.ErrNotFound {
+						finalVal = -1
+					}
+				}
+				vrt.Quiesce()
 				cerr := in.Close()
 				vrt.Quiesce()
 				vrt.Rec = nil
@@ -124,10 +156,19 @@ func init() {
 					v := o.vals["a"]
 					outcomes[v] = true
 					ok := v == newVal || (v == 1 && k < ack2)
+					if vs == "S" {
+						// two writers: before both are acknowledged any of the three values; afterwards the
+						// value a reader was given at that moment
+						ok = (k < ackBoth && (v == 1 || v == 3 || v == newVal)) || (k >= ackBoth && v == finalVal)
+						_ = ack3
+					}
 					if !ok {
 						state := "in flight"
 						if k >= ack2 {
 							state = "acknowledged"
+						}
+						if vs == "S" {
+							return fmt.Sprintf("crash-acknowledged-write-lost: %s: both writes were %s; a reader was given #%d once both had returned; recovered state {%s}", where, map[bool]string{true: "acknowledged", false: "not yet both acknowledged"}[k >= ackBoth], finalVal, o), ""
 						}
 						return fmt.Sprintf("crash-acknowledged-write-lost: %s: the write was %s, the key held the acknowledged value #1 before it; recovered state {%s}", where, state, o), ""
 					}
